@@ -167,9 +167,52 @@ def h_span(ctx, ts_flags, units, chain=False):
         ctx.true('span >= every (state - lowest) when no wrap term', (got >= g - G[lo]) | (hi < lo))
 
 
+class GStub(StubSpecies):
+    """stub species that also reports G with units (= G/RT x R x T), as the network getter asks for"""
+    def get_G(self, units, T=1234.5, P=7.0, **kwargs):
+        from pmutt import constants as c
+        return self.get_GoRT(T=T, P=P) * c.R(units + '/K') * T
+
+
+def h_network_span(ctx, ts_flags, units):
+    """Network.get_E_span along the path  R0 -> [TS0] -> P0 = R1 -> [TS1] -> P1 ...  (consecutive steps share a state)"""
+    from pmutt.reaction import Reaction
+    from pmutt.reaction.network import Network, state_to_set
+    from pmutt import constants as c
+    T = ctx.real('T', 50, 5000)
+    P = ctx.real('P', 1e-4, 1e3)
+    RT = (c.R(units + '/K') * T) if units else 1.0
+    sp = [GStub(ctx, 'S%d' % i, quantities=['GoRT']) for i in range(len(ts_flags) + 1)]
+    rx, path, G = [], [], []
+    for i, ts in enumerate(ts_flags):
+        t = GStub(ctx, 'TS%d' % i, quantities=['GoRT']) if ts else None
+        rx.append(Reaction(reactants=[sp[i]], reactants_stoich=[1.], products=[sp[i + 1]], products_stoich=[1.],
+                           transition_state=[t] if ts else None, transition_state_stoich=[1.] if ts else None))
+        if i == 0:
+            path.append(state_to_set([sp[0]], [1.]))
+            G.append(ref_val(sp[0], 'GoRT', T, P) * RT)
+        if ts:
+            path.append(state_to_set([t], [1.]))
+            G.append(ref_val(t, 'GoRT', T, P) * RT)
+        path.append(state_to_set([sp[i + 1]], [1.]))
+        G.append(ref_val(sp[i + 1], 'GoRT', T, P) * RT)
+    net = Network(reactions=rx)
+    got = net.get_E_span(path=path, units=units, T=T, P=P)
+    hi = _first_extreme(G, True)
+    lo = _first_extreme(G, False)
+    want = G[hi] - G[lo]
+    if hi < lo:
+        want = want + (G[-1] - G[0])
+    ctx.eq('network E_span = highest - lowest (+ overall dG when highest precedes lowest)', got, want)
+
+
 def groups(tier):
     th = tier == 'thorough'
     g = []
+    for fl in ([(False,), (True,), (True, False)] + ([(False, False), (True, True)] if th else [])):
+        for units in (None, 'eV'):
+            g.append(dict(name='network-E_span/steps=%s/units=%s' % (''.join('T' if f else 'n' for f in fl), units), harness=h_network_span,
+                          params=dict(ts_flags=fl, units=units), max_paths=20000))
     for n in (1, 2, 3):
         for m in (1, 2, 3):
             if not th and n * m > 6:
